@@ -267,9 +267,13 @@ def selftest(ctx, pairs, res, universe, rows):
     probe.violation = lambda *a, **k: True
     n = 0
     # (1) flip the verdict of one accepted and one rejected program
-    agree = [(j, me) for j, me in pairs if classify(j, me, res[j["id"]], G.observe(j["prog"])) is None]
-    acc = next((x for x in agree if res[x[0]["id"]]["valid"]), None)
-    rej = next((x for x in agree if not res[x[0]["id"]]["valid"]), None)
+    def first_agreeing(valid):
+        for j, me in pairs:
+            if res[j["id"]]["valid"] == valid and classify(j, me, res[j["id"]], G.observe(j["prog"])) is None:
+                return j, me
+        return None
+
+    acc, rej = first_agreeing(True), first_agreeing(False)
     for x in (acc, rej):
         if x is None:
             raise RuntimeError("binding self-test: no agreeing accepted/rejected program to perturb")
@@ -347,22 +351,29 @@ def run(tier, seed):
 
 
 def replay(path):
+    """Re-judge the witness with TLC, rebuild it with the real constructors; exit 1 iff it still disagrees."""
     with open(path) as f:
-        w = json.load(f)["witness"]
+        doc = json.load(f)
+    w = doc["witness"]
     ctx = Ctx(PID, "quick", 0, "model_checking")
     tmp = tempfile.mkdtemp(prefix="c19-")
     try:
         if w["kind"] == "program":
             job = copy.deepcopy(w["job"])
-            res, st = judge([job], procs=1)
-            ctx.add_tlc(st)
-            mism = check_programs(ctx, [(job, w["meta"])], res)
+            res, _ = judge([job], procs=1)
+            mism = [k for k, _, _ in check_programs(ctx, [(job, w["meta"])], res, report=False)]
+            detail = {"model": res[job["id"]], "observed": G.observe(job["prog"])}
         else:
             universe = [w["out"], w["in"]]
-            rows, st = judge_types(universe, tmp)
-            ctx.add_tlc(st)
-            mism = check_types(ctx, universe, rows)
+            rows, _ = judge_types(universe, tmp)
+            mism = ["type-compat"] if (0, 1) in check_types(ctx, universe, rows, report=False) else []
+            detail = {"model": rows[1][1], "observed": type_verdict_code(w["out"], w["in"])}
     finally:
         shutil.rmtree(tmp, ignore_errors=True)
-    print(f"[{PID}] replay {'reproduces' if mism else 'does not reproduce'}: {path}")
-    return 1 if mism else 0
+    print(f"[{PID}] replay {path}: {json.dumps(detail)}")
+    if mism:
+        print(f"VIOLATION property={PID} replay={path}")
+        print(f"  class={mism[0]} (recorded class: {doc.get('class')}) reproduces")
+        return 1
+    print(f"[{PID}] replay does not reproduce")
+    return 0
